@@ -67,14 +67,14 @@ func (ps *PubSub) Subscribe(_ context.Context, conn *net.Conn, channels []string
 			}
 			newChan.Start()
 			if newChan.Subscribe(conn) {
+				ps.channels = append(ps.channels, newChan)
 				if err := r.WriteArray([]resp.Value{
 					resp.StringValue(action),
 					resp.StringValue(newChan.name),
-					resp.IntegerValue(i + 1),
+					resp.IntegerValue(ps.subscriptionCount(conn)),
 				}); err != nil {
 					log.Println(err)
 				}
-				ps.channels = append(ps.channels, newChan)
 			}
 		} else {
 			// Subscribe to existing channel
@@ -82,13 +82,25 @@ func (ps *PubSub) Subscribe(_ context.Context, conn *net.Conn, channels []string
 				if err := r.WriteArray([]resp.Value{
 					resp.StringValue(action),
 					resp.StringValue(ps.channels[channelIdx].name),
-					resp.IntegerValue(i + 1),
+					resp.IntegerValue(ps.subscriptionCount(conn)),
 				}); err != nil {
 					log.Println(err)
 				}
 			}
 		}
 	}
+}
+
+// subscriptionCount returns the number of channels and patterns the connection is currently subscribed to.
+// The caller must hold channelsRWMut.
+func (ps *PubSub) subscriptionCount(conn *net.Conn) int {
+	count := 0
+	for _, channel := range ps.channels {
+		if channel.HasSubscriber(conn) {
+			count += 1
+		}
+	}
+	return count
 }
 
 func (ps *PubSub) Unsubscribe(_ context.Context, conn *net.Conn, channels []string, withPattern bool) []byte {
